@@ -622,18 +622,44 @@ func laws20(c case20) (vs []verdict20, info map[string]string) {
 					xv, yv = normWl20(xv, ""), normWl20(yv, "")
 				}
 				if c.UseSchema {
-					continue // scalar types follow the schema by design; checked by the model and schema_quote law below
+					continue // scalar types follow the schema by design: see schemaLaw20
+				}
+				if docDupKeys20(nodes[i]) {
+					// the typed value of a mapping with duplicate keys is "last one wins": not a function of
+					// the pair multiset; such documents are covered by the pair-multiset law below
+					info["value"] = "dup-keys-json-skipped"
+					continue
 				}
 				if !reflect.DeepEqual(xv, yv) {
-					class := "value/other"
-					if f.dupKeys && f.bigEquiv {
-						class = "value/dup-key-unstable-sort"
-					}
-					vs = append(vs, verdict20{"value_preserved", class,
+					vs = append(vs, verdict20{"value_preserved", "value/other",
 						"typed value changed; " + firstDiff20(canonJSON20(xv), canonJSON20(yv))})
 				}
 			}
 		}
+	}
+	// --- pairs only permuted (node level): every mapping keeps its multiset of (key, value) pairs, every
+	// sequence its elements (in order, or as a multiset for the whitelisted lists); scalars keep tag and text
+	if !c.UseSchema && okidx {
+		in, e1 := read20(idx, true) // the reader/writer round trip of x (baseline for tags/normalisation)
+		out, e2 := read20(y, true)
+		if e1 == nil && e2 == nil && len(in) == len(out) && len(in) == len(nodes) {
+			for i := range in {
+				kind, api, ok := typeMeta20(nodes[i])
+				wl := ok && wlOn20(kind, api) && !fmtOptOut20(nodes[i])
+				a, b := canonNode20(in[i].YNode(), "", wl), canonNode20(out[i].YNode(), "", wl)
+				if a != b {
+					vs = append(vs, verdict20{"value_preserved", "value/pairs-not-permuted",
+						"a mapping's pair multiset / a list's elements changed; " + firstDiff20(a, b)})
+				}
+			}
+			info["pairs"] = "checked"
+		}
+	}
+	if c.UseSchema {
+		svs, nStr, nInt := schemaLaw20(c, y)
+		vs = append(vs, svs...)
+		info["schema_sites_string"] = fmt.Sprint(nStr)
+		info["schema_sites_integer"] = fmt.Sprint(nInt)
 	}
 	// --- comments: multiset of comment lines, relative to what the reader/writer pair alone preserves
 	xc, okx := commentLines20(c.Yaml)
@@ -654,6 +680,273 @@ func laws20(c case20) (vs []verdict20, info map[string]string) {
 	return vs, info
 }
 
+func docDupKeys20(n *kyaml.RNode) bool {
+	f := facts20{}
+	if n.YNode() != nil {
+		gatherFacts20(n.YNode(), "", false, &f)
+	}
+	return f.dupKeys
+}
+
+// canonNode20: canonical text of a node tree up to the order of mapping pairs and of whitelisted lists.
+func canonNode20(n *yaml.Node, path string, wl bool) string {
+	if n == nil {
+		return "nil"
+	}
+	switch n.Kind {
+	case yaml.ScalarNode:
+		return fmt.Sprintf("S(%q,%q,&%q)", n.Tag, n.Value, n.Anchor)
+	case yaml.AliasNode:
+		return fmt.Sprintf("A(%q)", n.Value)
+	case yaml.MappingNode:
+		parts := []string{}
+		for i := 0; i+1 < len(n.Content); i += 2 {
+			parts = append(parts, canonNode20(n.Content[i], path, wl)+"=>"+canonNode20(n.Content[i+1], path+"."+n.Content[i].Value, wl))
+		}
+		sort.Strings(parts)
+		return fmt.Sprintf("M(%q,&%q){%s}", n.Tag, n.Anchor, strings.Join(parts, ","))
+	case yaml.SequenceNode:
+		parts := []string{}
+		for _, e := range n.Content {
+			parts = append(parts, canonNode20(e, path, wl))
+		}
+		if _, found := kyaml.WhitelistedListSortFields[path]; found && wl {
+			sort.Strings(parts)
+		}
+		return fmt.Sprintf("Q(%q,&%q)[%s]", n.Tag, n.Anchor, strings.Join(parts, ","))
+	}
+	return "?"
+}
+
+// schemaLaw20: with UseSchema, scalars at positions whose OpenAPI type is known follow that type in the
+// written output, and a string keeps its text.  Evaluated for built-in kinds at well-known positions.
+func schemaLaw20(c case20, y string) (vs []verdict20, nStr, nInt int) {
+	in, e1 := read20(c.Yaml, true)
+	yd := splitDocs20(y)
+	if e1 != nil || len(in) != len(yd) {
+		return nil, 0, 0
+	}
+	for i, n := range in {
+		kind, api, ok := typeMeta20(n)
+		if !ok || fmtOptOut20(n) || docDupKeys20(n) {
+			continue
+		}
+		root := openapi.SchemaForResourceType(kyaml.TypeMeta{APIVersion: api, Kind: kind})
+		if root == nil {
+			continue
+		}
+		ff := facts20{}
+		gatherFacts20(n.YNode(), "", false, &ff)
+		if ff.alias {
+			continue
+		}
+		yv, err := jsonValue20(yd[i])
+		if err != nil {
+			continue
+		}
+		for _, sp := range schemaSites20(kind, api) {
+			for _, site := range lookupSites20(n.YNode(), yv, sp.path, root) {
+				x := site.node
+				if siteType20(site.sch) != sp.typ {
+					continue // the real schema does not give this position the type the site table expects
+				}
+				if x.Kind != yaml.ScalarNode || x.Tag == "!!null" || x.Style&yaml.TaggedStyle != 0 || x.Tag == "!!binary" ||
+					x.Tag == "!!merge" || strings.Contains(x.Value, "\n") {
+					continue
+				}
+				switch sp.typ {
+				case "string":
+					nStr++
+					if s, isStr := site.val.(string); !isStr || s != x.Value {
+						vs = append(vs, verdict20{"schema_quote", "schema/string-retyped",
+							fmt.Sprintf("%s: string-typed scalar %q is read back as %#v", sp.path, x.Value, site.val)})
+					}
+				case "integer":
+					nInt++
+					if kyaml.IsValueNonString(x.Value) {
+						if _, isStr := site.val.(string); isStr {
+							vs = append(vs, verdict20{"schema_quote", "schema/number-left-quoted",
+								fmt.Sprintf("%s: integer-typed scalar %q is read back as the string %#v", sp.path, x.Value, site.val)})
+						}
+					}
+				}
+			}
+		}
+	}
+	return vs, nStr, nInt
+}
+
+type schemaSite20 struct {
+	path string // dotted; "*" = every key of a mapping, "[]" = every element
+	typ  string
+}
+
+func schemaSites20(kind, api string) []schemaSite20 {
+	sites := []schemaSite20{{"metadata.labels.*", "string"}, {"metadata.annotations.*", "string"}, {"metadata.name", "string"}}
+	switch {
+	case kind == "ConfigMap" && api == "v1":
+		sites = append(sites, schemaSite20{"data.*", "string"})
+	case kind == "Secret" && api == "v1":
+		sites = append(sites, schemaSite20{"stringData.*", "string"})
+	case (kind == "Deployment" || kind == "StatefulSet") && api == "apps/v1":
+		sites = append(sites,
+			schemaSite20{"spec.replicas", "integer"},
+			schemaSite20{"spec.template.spec.containers.[].image", "string"},
+			schemaSite20{"spec.template.spec.containers.[].name", "string"},
+			schemaSite20{"spec.template.spec.containers.[].args.[]", "string"},
+			schemaSite20{"spec.template.spec.containers.[].command.[]", "string"},
+			schemaSite20{"spec.template.spec.containers.[].env.[].value", "string"},
+			schemaSite20{"spec.template.spec.containers.[].ports.[].containerPort", "integer"},
+			schemaSite20{"spec.template.spec.serviceAccountName", "string"},
+			schemaSite20{"spec.template.spec.nodeSelector.*", "string"},
+			schemaSite20{"spec.template.metadata.labels.*", "string"})
+	}
+	return sites
+}
+
+type site20 struct {
+	node *yaml.Node
+	val  interface{}
+	sch  *openapi.ResourceSchema // the schema at this position (nil once unknown)
+}
+
+func schField20(s *openapi.ResourceSchema, k string) (out *openapi.ResourceSchema) {
+	if s == nil || s.Schema == nil {
+		return nil
+	}
+	defer func() { _ = recover() }()
+	return s.Field(k)
+}
+
+func schElems20(s *openapi.ResourceSchema) (out *openapi.ResourceSchema) {
+	if s == nil || s.Schema == nil {
+		return nil
+	}
+	defer func() { _ = recover() }()
+	return s.Elements()
+}
+
+// siteType20: the site's OpenAPI type as FormatNonStringStyle reads it ("" when it does not apply)
+func siteType20(s *openapi.ResourceSchema) string {
+	if s == nil || s.Schema == nil || len(s.Schema.Type) != 1 {
+		return ""
+	}
+	t := s.Schema.Type[0]
+	if t == "string" && s.Schema.Format == "int-or-string" {
+		return ""
+	}
+	return t
+}
+
+// lookupSites20 walks the input node tree and the output typed value in parallel along a site path.
+// Keys are matched by name (documents with duplicate keys are excluded by the caller); list elements by
+// position — so lists whose order the formatter may change are matched through their sort key instead.
+func lookupSites20(n *yaml.Node, v interface{}, path string, root *openapi.ResourceSchema) []site20 {
+	parts := strings.Split(path, ".")
+	cur := []site20{{n, v, root}}
+	for _, p := range parts {
+		next := []site20{}
+		for _, s := range cur {
+			switch {
+			case p == "*":
+				m, ok := s.val.(map[string]interface{})
+				if s.node.Kind != yaml.MappingNode || !ok {
+					continue
+				}
+				for i := 0; i+1 < len(s.node.Content); i += 2 {
+					if cv, ok := m[s.node.Content[i].Value]; ok {
+						next = append(next, site20{s.node.Content[i+1], cv, schField20(s.sch, s.node.Content[i].Value)})
+					}
+				}
+			case p == "[]":
+				l, ok := s.val.([]interface{})
+				if s.node.Kind != yaml.SequenceNode || !ok || len(l) != len(s.node.Content) {
+					continue
+				}
+				// match elements by position after sorting both sides the same way when names are unique
+				idx := matchElems20(s.node.Content, l)
+				for i, j := range idx {
+					if j >= 0 {
+						next = append(next, site20{s.node.Content[i], l[j], schElems20(s.sch)})
+					}
+				}
+			default:
+				m, ok := s.val.(map[string]interface{})
+				if s.node.Kind != yaml.MappingNode || !ok {
+					continue
+				}
+				for i := 0; i+1 < len(s.node.Content); i += 2 {
+					if s.node.Content[i].Value == p {
+						if cv, ok := m[p]; ok {
+							next = append(next, site20{s.node.Content[i+1], cv, schField20(s.sch, p)})
+						}
+						break
+					}
+				}
+			}
+		}
+		cur = next
+	}
+	return cur
+}
+
+// matchElems20 pairs input elements with output elements: same position when the list was not reordered,
+// otherwise by the unique "name" text; -1 when no safe pairing exists.
+func matchElems20(in []*yaml.Node, out []interface{}) []int {
+	idx := make([]int, len(in))
+	names := map[string]int{}
+	uniq := true
+	for j, o := range out {
+		m, ok := o.(map[string]interface{})
+		if !ok {
+			uniq = false
+			break
+		}
+		nm, ok := m["name"].(string)
+		if !ok {
+			uniq = false
+			break
+		}
+		if _, dup := names[nm]; dup {
+			uniq = false
+			break
+		}
+		names[nm] = j
+	}
+	for i, e := range in {
+		idx[i] = -1
+		if e.Kind != yaml.MappingNode {
+			if !uniq {
+				idx[i] = i
+			}
+			continue
+		}
+		if uniq {
+			if j, ok := names[seqKey20(e, "name")]; ok {
+				idx[i] = j
+			}
+		}
+	}
+	if !uniq {
+		// scalars / unnamed elements: position is only safe when nothing could have been reordered
+		for i := range in {
+			idx[i] = -1
+		}
+		allScalar := true
+		for _, e := range in {
+			if e.Kind != yaml.ScalarNode {
+				allScalar = false
+			}
+		}
+		if allScalar {
+			for i := range in {
+				idx[i] = i
+			}
+		}
+	}
+	return idx
+}
+
 func fmtOptOut20(n *kyaml.RNode) bool {
 	v, err := n.Pipe(kyaml.GetAnnotation(filters.FmtAnnotation))
 	return err == nil && v != nil && v.YNode().Value == filters.FmtStrategyNone
@@ -668,6 +961,8 @@ type result20 struct {
 	nontrivial bool
 	facts      facts20
 	skipWhy    string
+	schemaFound               bool
+	quotedBySchema, unquotedBySchema, retaggedBySchema int
 }
 
 func runImpl20(c case20, withWritten bool) result20 {
@@ -711,6 +1006,28 @@ func runImpl20(c case20, withWritten bool) result20 {
 			}
 		}
 	}
+	type st struct {
+		style yaml.Style
+		tag   string
+	}
+	snap := map[*yaml.Node]st{}
+	var walk func(n *yaml.Node)
+	walk = func(n *yaml.Node) {
+		if n.Kind == yaml.ScalarNode {
+			snap[n] = st{n.Style, n.Tag}
+		}
+		for _, ch := range n.Content {
+			walk(ch)
+		}
+	}
+	if c.UseSchema {
+		for _, n := range nodes {
+			walk(n.YNode())
+			if kind, api, ok := typeMeta20(n); ok && openapi.SchemaForResourceType(kyaml.TypeMeta{APIVersion: api, Kind: kind}) != nil {
+				res.schemaFound = true
+			}
+		}
+	}
 	var outs []*kyaml.RNode
 	cls, _ := protect(func() error {
 		var e error
@@ -718,6 +1035,17 @@ func runImpl20(c case20, withWritten bool) result20 {
 		return e
 	})
 	res.cls = cls
+	q := yaml.DoubleQuotedStyle | yaml.SingleQuotedStyle
+	for n, b := range snap {
+		switch {
+		case b.style&q == 0 && n.Style&q != 0:
+			res.quotedBySchema++
+		case b.style&q != 0 && n.Style&q == 0:
+			res.unquotedBySchema++
+		case b.tag != n.Tag:
+			res.retaggedBySchema++
+		}
+	}
 	outTerm := "[]"
 	if cls == ClsOk {
 		t, ok := cnodeListTerm(outs)
@@ -841,6 +1169,12 @@ func runOne20(r *Run, c case20, toModel bool, src string) {
 	flag("whitelisted_seq_out_of_order", f.wlReordered)
 	flag("changed_by_filter", res.nontrivial)
 	flag("empty_metadata", f.emptyMeta)
+	if c.UseSchema {
+		flag("schema_found", res.schemaFound)
+		flag("schema_quoted_a_scalar", res.quotedBySchema > 0)
+		flag("schema_unquoted_a_scalar", res.unquotedBySchema > 0)
+		flag("schema_retagged_only", res.retaggedBySchema > 0)
+	}
 	if toModel {
 		if !res.ok {
 			r.Count("skipped", res.skipWhy)
@@ -860,6 +1194,21 @@ func runOne20(r *Run, c case20, toModel bool, src string) {
 	}
 	if v, ok := info["value"]; ok {
 		r.Count("value_oracle", v)
+	}
+	if v, ok := info["pairs"]; ok {
+		r.Count("pairs_oracle", v)
+	}
+	for _, k := range []string{"schema_sites_string", "schema_sites_integer"} {
+		if v, ok := info[k]; ok {
+			n := 0
+			fmt.Sscan(v, &n)
+			m := r.Meta.Distribution["schema_oracle"]
+			if m == nil {
+				m = map[string]int{}
+				r.Meta.Distribution["schema_oracle"] = m
+			}
+			m[k] += n
+		}
 	}
 	for _, v := range vs {
 		r.Count("law_failures", v.class)
